@@ -54,8 +54,13 @@ def run(chk):
         dict(mb=[0.1, 1, 50, 100], a=[-1.3, -2.0, -2.7], nbins=[3, 10, 4], feh=-1.0),       # BH progenitors span two IMF segments
         dict(mb=[0.08, 100], a=[-2.35], nbins=12, feh=-0.5, method="split_linear"),
     ]
+    # metallicities outside / between the tabulated lifetimes (-2.5 .. 0.5 in steps of 0.1): the shortcut must use the same
+    # (nearest, clamped) lifetime row as the full model
+    cfgs[1]["feh"] = rng.choice([0.3, 0.62, 0.46])
+    cfgs[2]["feh"] = rng.choice([-2.6, -3.0, -2.56, -2.0, -2.44])
+    cfgs.append(dict(mb=[0.1, 0.5, 1.0, 100], a=[-0.5, -1.3, -2.5], nbins=[3, 3, 12], feh=rng.choice([-2.7, -3.4, -2.6])))
     if chk.tier == "quick":
-        cfgs = cfgs[:4]
+        cfgs = cfgs[:4] + cfgs[-1:]
     dis, ncase = [], 0
     for ci, cf in enumerate(cfgs):
         N0 = 10 ** rng.uniform(5, 6)
